@@ -34,7 +34,8 @@ RULE = ("case = generated object dictionary (variables, records, arrays; all dat
         "default / parameter value / both / none per entry) + optional read callback table + history of "
         "ops on a freshly created LocalNode: upload(entry), download(entry, bytes, exp|exp_nosize|seg_size|"
         "seg_nosize), transfers interrupted after k segments (restart), junk frames of 1..8 bytes, stray "
-        "segments with either toggle, client aborts, block-upload initiate (legal downgrade). Oracle: "
+        "segments with either toggle, client aborts, block-upload initiate (legal downgrade), the application changing an entry's access type "
+        "between requests. Oracle: "
         "frame-level reference client validating every response + dict model of the store with precedence "
         "callback > downloaded > parameter value > default; expected bytes from the independent codec. "
         "Non-trivial = history with >=1 segmented transfer and >=1 of {junk, stray, interrupted, empty "
@@ -480,6 +481,17 @@ def run_history(case, prefix):
             for e in rig.wlog[wl:]:
                 if m.key(e[0], e[1]) not in m.taint:
                     bad("junk/write-callback", f"{tag}: write callback for {e[0]:04x}:{e[1]:02x}")
+        elif kind == "set_access":
+            # the application changes the access type of an entry while the node is serving (parameters
+            # locked after commissioning, a command object opened for one step ...): public attribute of the
+            # dictionary entry; later requests are judged by the access type in force then
+            index, sub = op["index"], op["sub"]
+            var = rig.od.get_variable(index, sub)
+            if var is None or (index, sub) not in m.ent:
+                raise ValueError("generator error: set_access on an entry that is not listed")
+            var.access_type = op["access"]
+            m.ent[(index, sub)] = dict(m.ent[(index, sub)], access=op["access"])
+            feats.add("access-changed")
         elif kind == "toggle":
             # a segment with the wrong toggle bit while a transfer is in progress
             t = op["t"]
@@ -682,6 +694,7 @@ def lengths(max_len):
 def history(draw, max_len, refusal_bias=False, max_ops=14):
     od = draw(od_spec(min(max_len, 80)))
     ent = [(i, s, spec, kind) for i, s, spec, kind in entries(od)]
+    listed = list(ent)
     for o in od:
         if o["kind"] == "array":
             have = {m["sub"] for m in o["members"]}
@@ -709,7 +722,11 @@ def history(draw, max_len, refusal_bias=False, max_ops=14):
     for _ in range(draw(st.integers(1, max_ops))):
         choice = draw(st.sampled_from(
             ["upload", "upload", "download", "download", "junk", "stray", "missing", "abort"] +
-            (["refuse"] * 4 if refusal_bias else [])))
+            (["refuse"] * 4 + ["set_access"] * 2 if refusal_bias else ["set_access"])))
+        if choice == "set_access":
+            i, s, spec, kind = draw(st.sampled_from(listed))
+            ops.append({"op": "set_access", "index": i, "sub": s, "access": draw(st.sampled_from(ACCESS))})
+            continue
         if choice in ("upload", "download", "refuse"):
             i, s, spec, kind = draw(st.sampled_from(ent))
             if choice == "upload":
